@@ -303,14 +303,15 @@ class get_marked_import_visitor(StopNodeVisitor):
 
 def get_indexes_for_target(target, result, idx):
     # type: (AST, list[tuple[Targets, list[int]]], list[int]) -> list[tuple[Targets, list[int]]]
+    if type(target) is Starred:
+        target = target.value  # '*(a, b), c = x': the starred target may be a sequence itself
+
     if isinstance(target, NESTED_INDEXED_NODES):
         for i, r in enumerate(target.elts):
             nidx = idx[:]
             nidx.append(i)
             get_indexes_for_target(r, result, nidx)
     else:
-        if type(target) is Starred:
-            target = target.value
         result.append((target, idx[:]))  # type: ignore[arg-type]
         if idx:
             idx[-1] += 1
